@@ -226,33 +226,35 @@ theorem line_partition_independent (guid : Bytes) (w : W) (r1 r2 : List Bytes)
     have s2 := (runReads_sim_whole S (Proto.init guid w) r2 hne2 h2).obs
     rw [s1, s2, hflat]
 
-/-! ## the hypotheses are satisfiable; concrete runs -/
+/-! ## the hypotheses are satisfiable -/
 
 section examples
 
-private def offered3 : List Bytes := real.offered
 private def g : Bytes := lit "guid"
 
-/-- a scripted run that authenticates: accept then BEGIN, split between CR and LF -/
-example : (runReads (scripted offered3) (Proto.init g ⟨[.accept], 0, 0⟩)
-    [0 :: lit "AUTH ANONYMOUS\r", lit "\nBEGIN\r\n"]).authenticated = true := by decide
+/-- a run that ends authenticated exists (hypothesis of `authenticated_only_after_accept`,
+`authenticated_not_closed`): the ANONYMOUS conversation, here split between CR and LF -/
+example (w : RealWorld) :
+    (runReads real (Proto.init g w) [0 :: lit "AUTH ANONYMOUS\r", lit "\nBEGIN\r\n"]).authenticated = true :=
+  (anonymous_accepted g w _ (by decide) (by decide)).1
 
-/-- seven unknown mechanisms: five REJECTED, the sixth rejection closes, the seventh line is not handled -/
-example : let p := runReads (scripted offered3) (Proto.init g ⟨[], 0, 0⟩)
-      [0 :: encodeLines (List.replicate 7 (lit "AUTH X"))]
-    p.closed = true ∧ p.sent.length = 5 ∧ p.log.length = 6 := by decide
-
-/-- BEGIN out of turn closes -/
-example : (runReads (scripted offered3) (Proto.init g ⟨[], 0, 0⟩) [0 :: lit "BEGIN\r\n"]).closed = true := by
-  decide
-
-/-- invalid hex and hex of non-ASCII are rejected, not raised (repair C06-01) -/
-example : let p := runReads (scripted offered3) (Proto.init g ⟨[.accept, .accept], 0, 0⟩)
-      [0 :: lit "AUTH ANONYMOUS zz\r\nAUTH EXTERNAL ff\r\n"]
-    p.crashed = false ∧ p.sent = [rejectMsg, rejectMsg] ∧ p.srv.rejects = 2 := by decide
+/-- a run that neither crashed nor authenticated exists (hypotheses of `closes_exactly_when`) -/
+example (w : W) : (runReads S (Proto.init g w) [[0]]).crashed = false ∧
+    (runReads S (Proto.init g w) [[0]]).authenticated = false := by
+  simp [runReads, recv, Proto.init, recvLines, Proto.dropFirst, Proto.setBuf, splitCRLF, lineLoop, remainderLimit,
+    maxAuthLength, authDelimiter, remainderSlack]
 
 /-- `Inv2` holds initially (hypothesis of `refines_spec_server_line`) -/
 example (w : W) : Inv2 (Server.init (W := W) (I := I) g w) := ⟨fun h => absurd rfl h, rfl⟩
+
+/-- a closed, unauthenticated state exists (hypotheses of `no_line_processed_after_close`) -/
+example (w : W) : (Proto.init (W := W) (I := I) g w).close.closed = true ∧
+    (Proto.init (W := W) (I := I) g w).close.authenticated = false := ⟨rfl, rfl⟩
+
+/-- the environment hypotheses of the cookie conversation are satisfiable: a user name that is not a number -/
+example : parseInt (lit "alice") = none ∧ isAscii (lit "alice") = true ∧ NoSpace (lit "636c69656e74") := by
+  refine ⟨by decide, by decide, ?_⟩
+  unfold NoSpace; decide
 
 end examples
 
